@@ -608,6 +608,83 @@ func c03WideStmtPrograms(n int) []*zn.Program {
 	return ps
 }
 
+// c03MultiLinePrograms: a text with a real line break inside (manual ch.1) in statements that
+// stand INSIDE blocks: as the condition of a nested header, as a value followed by more statements
+// of the block - the line on which the statement ends begins inside the text
+func c03MultiLinePrograms() []*zn.Program {
+	ml := zn.Str{Val: "u\nv"}
+	es := func(n string) zn.Stmt { return zn.ExprStmt{E: zn.Var{Name: n}} }
+	inner := [][]zn.Stmt{
+		{zn.If{Cond: zn.Bin{Op: "==", L: zn.Var{Name: "A"}, R: ml}, Then: []zn.Stmt{es("B")}}, es("D")},
+		{zn.If{Cond: zn.Bin{Op: "==", L: zn.Var{Name: "A"}, R: ml}, Then: []zn.Stmt{es("B")}, Else: []zn.Stmt{es("E")}, HasElse: true}, es("D")},
+		{zn.If{Cond: zn.Var{Name: "A"}, Then: []zn.Stmt{es("B")}, Elifs: []zn.Elif{{Cond: zn.Bin{Op: "为", L: zn.Var{Name: "A"}, R: ml}, Body: []zn.Stmt{es("F")}}}}, es("D")},
+		{zn.While{Cond: zn.Bin{Op: "/=", L: zn.Var{Name: "A"}, R: ml}, Body: []zn.Stmt{es("B")}}, es("D")},
+		{zn.Iter{Vars: []string{"V"}, Target: zn.List{Items: []zn.Expr{ml}}, Body: []zn.Stmt{es("B")}}, es("D")},
+		{zn.Decl{Pairs: []zn.DeclPair{{Names: []string{"X"}, Val: ml}}}, es("D")},
+		{zn.ExprStmt{E: zn.Call{Name: "F", Args: []zn.Expr{ml}}}, es("D")},
+		{zn.ExprStmt{E: zn.Assign{Target: zn.Var{Name: "X"}, Val: ml}}, zn.Return{Val: ml}},
+		{zn.Return{Val: ml}},
+		{zn.Throw{Class: "E", Args: []zn.Expr{ml}}},
+		{zn.ExprStmt{E: zn.MCall{Root: ml, Chain: []zn.Call{{Name: "m", Args: []zn.Expr{ml}}}}}, es("D")},
+	}
+	var ps []*zn.Program
+	for _, in := range inner {
+		ps = append(ps, &zn.Program{Body: []zn.Stmt{zn.If{Cond: zn.Var{Name: "A"}, Then: in}, es("C")}})
+		ps = append(ps, &zn.Program{Body: []zn.Stmt{zn.While{Cond: zn.Var{Name: "A"}, Body: []zn.Stmt{zn.If{Cond: zn.Var{Name: "B"}, Then: in, Else: []zn.Stmt{es("E")}, HasElse: true}}}, es("C")}})
+		ps = append(ps, &zn.Program{Body: []zn.Stmt{zn.Func{Name: "M", Params: []string{"P"}, Body: in, Catches: []zn.Catch{{Class: "E", Body: in}}}, es("C")}})
+		ps = append(ps, &zn.Program{Body: []zn.Stmt{zn.Class{Name: "T", Props: []zn.Prop{{Name: "P", Val: ml}, {Name: "Q", Val: zn.Num{Lit: "1"}}}, Methods: []zn.Func{{Name: "M", Body: in}}}, es("C")}})
+	}
+	return ps
+}
+
+// c03CommentBreaks: a /* */ comment that spans a line break in front of the first token of a
+// line (the comment's second line indented like the statement, or not at all): the statement
+// still begins on that line, at the indentation the first line had
+func c03CommentBreaks(c *mc.Ctx, prog *zn.Program, part string) {
+	want := zn.Show(prog)
+	base := zn.Render(prog, nil)
+	if strings.Contains(base, "u\nv") {
+		return
+	}
+	lines := strings.Split(strings.TrimSuffix(base, "\n"), "\n")
+	var n int64
+	for b := 0; b < len(lines); b++ {
+		body := strings.TrimLeft(lines[b], " ")
+		ind := lines[b][:len(lines[b])-len(body)]
+		for _, second := range []string{ind + "*/ ", ind + "   */ ", "*/ "} {
+			if second == "*/ " && ind == "" {
+				continue
+			}
+			all := append(append(append([]string{}, lines[:b]...), ind+"/* 注", second+body), lines[b+1:]...)
+			src := strings.Join(all, "\n") + "\n"
+			cs := func() json.RawMessage {
+				return mc.J(c03Case{Part: part, Source: src, Want: want, Devs: fmt.Sprintf("two-line comment in front of line %d, closing line %q", b+1, second)})
+			}
+			c.Case(c03CurIdx, cs)
+			n++
+			tree, err, pan := c03Parse(src)
+			if pan != "" {
+				c.Fail(mc.Failure{Kind: "panic", Case: cs(), Observed: pan})
+				continue
+			}
+			if err != nil {
+				c.Fail(mc.Failure{Bucket: "reject:comment-break", Kind: "mismatch", Case: cs(), Expected: "tree " + want, Observed: "syntax error: " + err.Error()})
+				continue
+			}
+			got, missing := zn.Dump(tree)
+			if len(missing) > 0 {
+				c.Fail(mc.Failure{Bucket: "incomplete:" + missing[0], Kind: "mismatch", Case: cs(), Expected: "complete tree", Observed: fmt.Sprintf("missing parts %v", missing)})
+				continue
+			}
+			if sh := zn.Show(got); sh != want {
+				c.Fail(mc.Failure{Bucket: "tree:comment-break", Kind: "mismatch", Case: cs(), Expected: want, Observed: sh})
+			}
+		}
+	}
+	c.EvalN(n, n)
+	c.Stat("parses_"+part, n)
+}
+
 // c03Layouts explores every layout of prog with <= bound deviations.
 func c03Layouts(c *mc.Ctx, prog *zn.Program, bound int, part string) {
 	want := zn.Show(prog)
@@ -911,6 +988,31 @@ func c03Run(c *mc.Ctx) {
 			}
 		}
 		c.Bound("wide_statements", fmt.Sprintf("complete: 14 statement constructs with n parts for %d values of n (1..%d)", len(widths), widths[len(widths)-1]))
+	}
+	// (i) a text with a real line break, and a comment that spans a line break, inside blocks
+	{
+		mls := c03MultiLinePrograms()
+		for _, p := range mls {
+			pp := p
+			if next(func() json.RawMessage { return mc.J(c03Case{Part: "multi-line-text-in-blocks", Source: zn.Render(pp, nil)}) }) {
+				c03Layouts(c, p, 1, "multi_line_text_in_blocks")
+			}
+		}
+		var progs []*zn.Program
+		progs = append(progs, c03Sections()...)
+		for m := 1; m <= 2; m++ {
+			for _, b := range c03Bodies(m, 2) {
+				progs = append(progs, &zn.Program{Body: b})
+			}
+		}
+		progs = append(progs, c03NestedBranches()...)
+		for _, p := range progs {
+			pp := p
+			if next(func() json.RawMessage { return mc.J(c03Case{Part: "comment-breaks", Source: zn.Render(pp, nil)}) }) {
+				c03CommentBreaks(c, p, "comment_breaks")
+			}
+		}
+		c.Bound("multi_line_tokens_in_blocks", fmt.Sprintf("complete: %d programs with a multi-line text in a block (layout deviations <= 1); a two-line comment (3 closing-line forms) in front of every line of %d programs", len(mls), len(progs)))
 	}
 	// (d) deviation bound 2 on a fixed subset (quick: sections with one import)
 	if c.Tier != "thorough" {
